@@ -90,7 +90,7 @@ func (g *GMap) fresh(x *X, s *State, prefix string) *GMap {
 
 // ghostVarNames in a fixed order (used by frame checks and havoc).
 var ghostVarNames = []string{"Auction", "Bid", "AllowedBidder", "VestingQueue", "BidSeq", "MatchedBidsLen", "AuctionSeq", "Params",
-	"Bal", "Pool", "BlockTime", "Clock", "ExternOK", "HookOK", "HookN", "HookT", "SetT", "XferN", "XferT", "EventN", "EnableAddAllowedBidder", "HookArgs"}
+	"Bal", "Pool", "BlockTime", "Clock", "ExternOK", "HookOK", "HookN", "HookT", "SetT", "XferN", "XferT", "EventN", "EnableAddAllowedBidder", "HookArgs", "LastMatchTotal", "LastMatchPrice"}
 
 func (V *Verifier) lookupType(name string) types.Type {
 	obj := V.typesPkg().Scope().Lookup(name)
@@ -155,6 +155,9 @@ func (V *Verifier) initGhost(x *X, s *State) {
 	s.ghost["XferT"] = Sc{T: x.sym("XferT", "Int"), Sort: "Int"}
 	s.ghost["EventN"] = Sc{T: x.sym("EventN", "Int"), Sort: "Int"}
 	s.ghost["EnableAddAllowedBidder"] = Sc{T: x.sym("EnableAddAllowedBidder", "Bool"), Sort: "Bool"}
+	// outcome of the last batch matching (written only by "sets" clauses): total sold and clearing price
+	s.ghost["LastMatchTotal"] = Sc{T: x.sym("LastMatchTotal", "Int"), Sort: "Int"}
+	s.ghost["LastMatchPrice"] = Sc{T: x.sym("LastMatchPrice", "Int"), Sort: "Int"}
 	// last arguments received by the listeners of each hook method (fresh = "whatever was passed before")
 	ha := St{map[string]Val{}}
 	if it, ok := V.lookupType("FundraisingHooks").Underlying().(*types.Interface); ok {
